@@ -34,12 +34,14 @@ mod errors;
 use std::{
     convert::TryInto,
     ops::{Deref, DerefMut},
-    sync::{
-        atomic::{AtomicIsize, AtomicUsize, Ordering},
-        Arc, Weak,
-    },
+    sync::{atomic::Ordering, Arc, Weak},
     time::Duration,
 };
+
+#[cfg(deadpool_verif)]
+use crate::verif_sync::{AtomicIsize, AtomicUsize};
+#[cfg(not(deadpool_verif))]
+use std::sync::atomic::{AtomicIsize, AtomicUsize};
 
 #[cfg(deadpool_verif)]
 use deadpool_runtime::verif;
